@@ -181,3 +181,9 @@ func storeSel(in ssa.Instruction) (sel string, root ssa.Value, st *ssa.Store, ok
 	a := apOf(st.Addr)
 	return a.SelString(), a.Root, st, true
 }
+
+// socket primitives (type-resolved names; net.UDPConn embeds net.conn)
+var sockWrites = []string{"(*net.conn).Write", "(*net.UDPConn).Write", "(*net.UDPConn).WriteTo", "(*net.UDPConn).WriteToUDP", "(*net.UDPConn).WriteMsgUDP", "(*net.UDPConn).WriteToUDPAddrPort", "(*net.UDPConn).WriteMsgUDPAddrPort"}
+var sockReads = []string{"(*net.conn).Read", "(*net.UDPConn).Read", "(*net.UDPConn).ReadFrom", "(*net.UDPConn).ReadFromUDP", "(*net.UDPConn).ReadMsgUDP", "(*net.UDPConn).ReadFromUDPAddrPort", "(*net.UDPConn).ReadMsgUDPAddrPort"}
+var sockWriteDeadline = []string{"(*net.conn).SetWriteDeadline", "(*net.conn).SetDeadline", "(*net.UDPConn).SetWriteDeadline", "(*net.UDPConn).SetDeadline"}
+var sockReadDeadline = []string{"(*net.conn).SetReadDeadline", "(*net.conn).SetDeadline", "(*net.UDPConn).SetReadDeadline", "(*net.UDPConn).SetDeadline"}
